@@ -92,6 +92,7 @@ def pagerank[S](
     base_score = (1.0 - damping) / n
 
     iterations = 0
+    max_diff = float("inf")
     for iterations in range(1, max_iter + 1):
         new_scores: dict[S, float] = {}
         max_diff = 0.0
@@ -104,7 +105,8 @@ def pagerank[S](
             # Sum contributions from nodes linking to v
             rank_sum = sum(scores[u] / outgoing_count[u] for u in incoming[v])
             new_scores[v] = base_score + damping * rank_sum + dangling_contrib
-            max_diff = max(max_diff, abs(new_scores[v] - scores[v]))
+            # total change over all nodes: the same stopping rule as the Rust kernel
+            max_diff += abs(new_scores[v] - scores[v])
 
         scores = new_scores
 
